@@ -52,7 +52,8 @@ THEOREMS = ['C05_pot_transform_compl_untouched', 'C05_pot_transform_den',
             'C05_located_enumerated', 'C05_located_unique',
             'C05_descents_distinct', 'C05_by_universe_lists',
             'C05_inline_cells_den', 'C05_trcl_phase_den',
-            'C05_explicit_transformation_not_empty']
+            'C05_explicit_transformation_not_empty',
+            'C05_inline_cells_den_conv', 'C05_pipeline_located']
 
 
 def tie_case_summary(case):
